@@ -319,6 +319,17 @@ class V:
     def __neg__(self):
         return V(INT, -self.t)
 
+    def __floordiv__(self, o):
+        """spec side: integer division by a POSITIVE literal (z3 div agrees with Python's // there)"""
+        if not isinstance(o, int) or o <= 0:
+            raise TypeError("spec // needs a positive literal divisor")
+        return V(INT, self.t / z3.IntVal(o))
+
+    def __mod__(self, o):
+        if not isinstance(o, int) or o <= 0:
+            raise TypeError("spec % needs a positive literal divisor")
+        return V(INT, self.t % z3.IntVal(o))
+
     # --- comparison
     def __eq__(self, o):
         return eq(self, o)
